@@ -141,7 +141,7 @@ Proof. exact each_dict_matters. Qed.
 Print Assumptions C07_each_dict_matters.
 
 (* ==== INSTANCE ==== (everything below is about the table regenerated from the working tree) *)
-From Run Require Import Gen_C07 Inst_C07_defaults Inst_C07_fields Inst_C07_globals Inst_C07_classmeta Inst_C07_process Inst_C07_argwrites.
+From Run Require Import Gen_C07 Inst_C07_defaults Inst_C07_fields Inst_C07_globals Inst_C07_classmeta Inst_C07_process Inst_C07_argwrites Inst_C07_setorder.
 
 Theorem C07_state_ok : state_ok Gen_C07.table = true.
 Proof.
@@ -202,3 +202,9 @@ Theorem C07_handlers_do_not_write_argument_objects :
   forall s, In s (st_argwrites Gen_C07.table) -> aw_handler s = false.
 Proof. exact (proj1 (argwrites_ok_spec Gen_C07.table) Inst_C07_argwrites.argument_writes_ok). Qed.
 Print Assumptions C07_handlers_do_not_write_argument_objects.
+
+(* no set of ids is iterated into an ordered container of a document in loaders.py / utils.py / hdf5/*.py: the order of the member
+   lists does not depend on the per-process hash seed *)
+Theorem C07_no_set_order_reaches_documents : set_iteration_sites Gen_C07.table = [].
+Proof. exact Inst_C07_setorder.set_order_ok. Qed.
+Print Assumptions C07_no_set_order_reaches_documents.
